@@ -127,6 +127,25 @@ theorem escOK_unescrow {cfg : Config} (ha : Assm cfg) {es : List Str} (hnd : es.
   rw [this, sum_map_sub_at _ _ _ _ hnd hchan (fun hd => by rw [hd]; exact hn), h d]
   split_ifs <;> rfl
 
+/-- an amount leaves one escrow account (to be burnt) and the tracked total drops with it -/
+theorem escOK_unescrow' {cfg : Config} (ha : Assm cfg) {es : List Str} (hnd : es.Nodup) {ch ch' : Chain}
+    {chan k : Str} {n : Nat} (h : EscOK cfg es ch) (hchan : chan ∈ es)
+    (hn : n ≤ ch.bank.bal (cfg.escrowAddr transferPort chan) k)
+    (hbal : ∀ a x, ch'.bank.bal a x = if x = k ∧ a = cfg.escrowAddr transferPort chan then ch.bank.bal a x - n else ch.bank.bal a x)
+    (hte : ∀ x, ch'.totalEscrow x = if x = k then ch.totalEscrow x - n else ch.totalEscrow x) : EscOK cfg es ch' := by
+  intro d
+  rw [hte d]
+  have : (es.map fun e => ch'.bank.bal (cfg.escrowAddr transferPort e) d) =
+      es.map fun e => ch.bank.bal (cfg.escrowAddr transferPort e) d - (if e = chan ∧ d = k then n else 0) := by
+    apply List.map_congr_left
+    intro e _
+    rw [hbal]
+    have h1 : cfg.escrowAddr transferPort e = cfg.escrowAddr transferPort chan ↔ e = chan :=
+      ⟨fun hh => (ha.escInj _ _ _ _ hh).2, fun hh => by rw [hh]⟩
+    by_cases hd : d = k <;> by_cases ec : e = chan <;> simp [hd, ec, h1]
+  rw [this, sum_map_sub_at _ _ _ _ hnd hchan (fun hd => by rw [hd]; exact hn), h d]
+  split_ifs <;> rfl
+
 /-- the transfer escrow accounts of every chain: duplicate-free, and containing every channel / client
     identifier that has a counterparty -/
 structure EndsOK (cfg : Config) (ends : Nat → List Str) : Prop where
@@ -213,12 +232,12 @@ theorem escInv_step {cfg : Config} (ha : Assm cfg) {ends : Nat → List Str} (he
           simp [this]
         · exact escOK_unescrow ha (he.nodup _) (hesc _) hchan hsne hn hbal hte
     · rw [hsame]; exact hesc _
-  | timeout p =>
+  | timeout p oc =>
     simp only [opChain] at hc0'; subst hc0'
     obtain ⟨hps, _, _, _⟩ := hg
     obtain ⟨_, _, hsp, _, hpp, _⟩ := hwi.sent p hps
     have hchan : p.srcChan ∈ ends p.srcChain := he.covers _ _ _ _ hpp
-    rcases step_timeout_cases cfg w p with ⟨ch', hto, hstep⟩ | ⟨hsame, _⟩
+    rcases step_timeout_cases cfg w p oc with ⟨ch', hto, hstep⟩ | ⟨hsame, _⟩
     · rw [hstep]
       simp only [World.setChain, if_true]
       obtain ⟨s, hsd, _, _, _, heff⟩ := refund_effect (timeoutPacket_ok hto)
